@@ -110,6 +110,23 @@ CLAIMS = {
              "reload reproduce the geometry. NOT decided: the numeric inequalities (7% allowance, 2/width <= eps, ...) under "
              "floating point at specific parameter pairs.",
         design_ref="DESIGN.md section 4 C07"),
+    "C06": dict(
+        technique="normal-form comparison of emission lists, address functions, query formulas and hash kernels against the documented layout",
+        text="Layout description only: footer formats, field order and sizes with cells first; Bloom bit addressing and array length; "
+             "one uint32 cell per counting position; count-min cell formula and int32 cells; mean and mean-min query formulas incl. "
+             "the median rule; cuckoo buckets of bucket_size uint32 slots padded with 0; seeded FNV-1a 64/32 kernels and constants; "
+             "the default hash strategy of each structure. The numbers are the specification quoted in the property. NOT decided: "
+             "that a C compiler lays out the reference reader identically, or agreement of answers as such (the consequence).",
+        design_ref="DESIGN.md section 4 C06"),
+    "C18": dict(
+        technique="effect analysis, non-interference (label flow of depth), normal-form comparison with published FNV-1a, append-count rule",
+        text="Structural, near-sufficient for the shipped strategies: the seven hash functions have no write effect and call only "
+             "digest/unpack/ord/list/map/range/encode and the wrapped function; exactly depth values are appended to a fresh list; "
+             "depth flows only into the loop bound (prefix stability as non-interference); FNV values are masked to 64/32 bits and "
+             "digests read as 'Q' of the first 8 bytes; constants and kernel are the published FNV-1a with basis + 31*seed and the "
+             "index as seed; str keys are utf-8 encoded before the first digest / mapped through ord for FNV. Purity of "
+             "user-supplied callables is a contract, not decided.",
+        design_ref="DESIGN.md section 4 C18"),
 }
 
 NA_DEFAULT = "check not built yet (build phase in progress; DESIGN.md section 4 gives the planned rule)"
